@@ -1015,7 +1015,7 @@ type backend struct {
 }
 
 type monitor struct {
-	noCompare  bool // a call with a cancelled context was issued: mem and rds may differ from here on
+	noCompare  bool              // a call with a cancelled context was issued: mem and rds may differ from here on
 	frg        map[string]string // foreign-prefix keys: latest value (they never expire and nothing removes them)
 	w          *world
 	mem, rds   *backend
@@ -1398,11 +1398,41 @@ type gen struct {
 	r     *rng.R
 	lines []string
 	nkeys int
+	names []string // key tokens by index (exotic cases); empty: k<i>
 	ttls  []int64
 }
 
-func (g *gen) key() string   { return "k" + strconv.Itoa(g.r.Intn(g.nkeys)) }
-func (g *gen) val() string   { return strconv.Itoa(g.r.Range(0, 999)) }
+// key tokens whose real strings (realKey) are long with a common 69-byte prefix, empty, or full of glob characters
+var exoticKeys = []string{"k7000", "k7001", "k7002", "k7003", "k8000", "k8001", "k8002", "k8003", "k8004", "k8005", "k8006", "k8007"}
+
+// exotic switches the case to exotic key names (a random arrangement, so that small key sets vary)
+func (g *gen) exotic() {
+	g.names = append([]string{}, exoticKeys...)
+	for i := len(g.names) - 1; i > 0; i-- {
+		j := g.r.Intn(i + 1)
+		g.names[i], g.names[j] = g.names[j], g.names[i]
+	}
+}
+
+func (g *gen) name(i int) string {
+	if i < len(g.names) {
+		return g.names[i]
+	}
+	return "k" + strconv.Itoa(i)
+}
+
+func (g *gen) key() string { return g.name(g.r.Intn(g.nkeys)) }
+
+// values: mostly 0..999; sometimes the empty value (900) or a 70 000-byte one (902)
+func (g *gen) val() string {
+	switch x := g.r.Intn(40); {
+	case x < 3:
+		return "900"
+	case x == 3:
+		return "902"
+	}
+	return strconv.Itoa(g.r.Range(0, 899))
+}
 func (g *gen) emit(s string) { g.lines = append(g.lines, s) }
 
 func (g *gen) ttlTok(wild bool) string {
@@ -1438,7 +1468,7 @@ func (g *gen) tickTok() string {
 
 func (g *gen) probeAll() {
 	for i := 0; i < g.nkeys; i++ {
-		g.emit("get k" + strconv.Itoa(i) + " 0 -")
+		g.emit("get " + g.name(i) + " 0 -")
 	}
 }
 
@@ -1447,9 +1477,23 @@ func genWild(r *rng.R, mode string, n int) corr.Case {
 	size := r.PickInt(0, 0, 1, 1, 2, 2, 3, 4)
 	dttl := r.PickI64(0, 0, -3, 2, 3, 5)
 	g := &gen{r: r, nkeys: size + r.Range(1, 3), ttls: []int64{1, 2, 3, 4, 6}}
+	if r.Chance(1, 3) {
+		g.exotic()
+	}
 	g.emit(fmt.Sprintf("new %s %d %d %d", mode, size, dttl, clock0+int64(r.Intn(1000))))
 	for i := 0; i < n; i++ {
 		switch x := r.Intn(20); {
+		case x == 17 && r.Chance(1, 2): // the same calls with an already cancelled context
+			switch r.Intn(6) {
+			case 0, 1:
+				g.emit("cdel " + g.key())
+			case 2:
+				g.emit(fmt.Sprintf("cset %s %s %s %s 0", g.key(), g.val(), g.ttlTok(true), b01(r.Chance(1, 4))))
+			case 3, 4:
+				g.emit(fmt.Sprintf("cget %s %s -", g.key(), b01(r.Chance(1, 3))))
+			default:
+				g.emit("cclear")
+			}
 		case x < 7:
 			g.emit(fmt.Sprintf("set %s %s %s %s %s", g.key(), g.val(), g.ttlTok(true), b01(r.Chance(1, 4)), b01(r.Chance(1, 4))))
 		case x < 13:
@@ -1487,6 +1531,9 @@ func genAdmissible(r *rng.R, n int) corr.Case {
 	size := nkeys + r.Intn(2)
 	dttl := r.PickI64(2, 3, 5, 60)
 	g := &gen{r: r, nkeys: nkeys, ttls: []int64{1, 2, 3, 4, 6, 60}}
+	if r.Chance(1, 3) {
+		g.exotic()
+	}
 	clock := int64(clock0 + int64(r.Intn(1000)))
 	g.emit(fmt.Sprintf("new both %d %d %d", size, dttl, clock))
 	type st struct {
@@ -1571,7 +1618,7 @@ func genAdmissible(r *rng.R, n int) corr.Case {
 	}
 	// final probe, stepping off deadlines
 	for i := 0; i < nkeys; i++ {
-		k := "k" + strconv.Itoa(i)
+		k := g.name(i)
 		if onDeadline(clock/1000, k) {
 			g.emit("tick 1000")
 			clock += 1000
@@ -1661,6 +1708,9 @@ func genDeadlineBoundary(r *rng.R) corr.Case {
 func genBound(r *rng.R) corr.Case {
 	size := r.Range(0, 4)
 	g := &gen{r: r, nkeys: size + r.Range(1, 5), ttls: []int64{2, 5, 60}}
+	if r.Chance(1, 4) {
+		g.exotic()
+	}
 	g.emit(fmt.Sprintf("new mem %d %d %d", size, r.PickI64(0, 60), clock0))
 	for i := 0; i < r.Range(3, 25); i++ {
 		if r.Chance(3, 4) {
@@ -1676,6 +1726,31 @@ func genBound(r *rng.R) corr.Case {
 // more live keys under the prefix than one SCAN page (11..60), keys of another prefix on the same redis, then Clear
 // and a Get of every key on both back-ends (in-memory size large enough, positive ttls far away: inside the
 // comparison domain), then the other-prefix keys must still be there
+// large caches: size 63 … 5000, size+1 … size+20 distinct keys set in order, a few early keys re-touched, then a probe
+// of every key: exactly the least recently touched ones may be gone, and at most `size` may hit
+func genBoundLarge(r *rng.R) corr.Case {
+	size := r.PickInt(63, 64, 100, 255, 256, 257, 300, 1000, 1000, 5000)
+	extra := r.Range(1, 20)
+	g := &gen{r: r, nkeys: size + extra, ttls: []int64{600}}
+	g.emit(fmt.Sprintf("new mem %d %d %d", size, r.PickI64(0, 600), clock0))
+	for i := 0; i < size; i++ {
+		g.emit(fmt.Sprintf("set k%d %d - 0 0", i, i%900))
+	}
+	for i := 0; i < r.Intn(4); i++ { // re-touch some of the oldest keys before the overflow
+		k := r.Intn(extra + 3)
+		if r.Bool() {
+			g.emit(fmt.Sprintf("get k%d 0 -", k))
+		} else {
+			g.emit(fmt.Sprintf("set k%d %d - 0 0", k, r.Range(0, 899)))
+		}
+	}
+	for i := size; i < size+extra; i++ {
+		g.emit(fmt.Sprintf("set k%d %d - 0 0", i, i%900))
+	}
+	g.probeAll()
+	return corr.Case{Tag: "bound-large-mem", Lines: g.lines}
+}
+
 func genClearMany(r *rng.R) corr.Case {
 	n := r.Range(11, 60)
 	if r.Chance(1, 6) {
@@ -1683,6 +1758,9 @@ func genClearMany(r *rng.R) corr.Case {
 	}
 	nf := r.PickInt(0, 1, 1, 3, 9, 10, 11, 25)
 	g := &gen{r: r, nkeys: n, ttls: []int64{60, 90, 300}}
+	if r.Chance(1, 3) {
+		g.exotic()
+	}
 	mode := r.Pick("both", "both", "both", "rds")
 	g.emit(fmt.Sprintf("new %s %d %d %d", mode, n+r.Intn(3), r.PickI64(60, 300), clock0+int64(r.Intn(1000))))
 	rounds := 1 + r.Intn(2)
@@ -1701,7 +1779,7 @@ func genClearMany(r *rng.R) corr.Case {
 		}
 		fi := 0
 		for _, k := range perm {
-			g.emit(fmt.Sprintf("set k%d %s %s 0 0", k, g.val(), g.ttlTok(false)))
+			g.emit(fmt.Sprintf("set %s %s %s 0 0", g.name(k), g.val(), g.ttlTok(false)))
 			if fi < nf && r.Chance(1, 3) {
 				g.emit(fmt.Sprintf("fset k%d %s", fi, g.val()))
 				fi++
@@ -1740,7 +1818,7 @@ func genStress(r *rng.R) corr.Case {
 
 func genMalformed(r *rng.R) corr.Case {
 	junk := []string{"", "set", "set k1", "set k1 x - 0 0", "set 1 2 - 0 0", "set k1 2 - 2 0", "get k1", "get k1 2 -", "get k1 0 x", "tick -5", "tick x",
-		"race k1 0", "race k1", "fset k1", "fget", "fset k1 x", "fget 3", "stress mem 2 1 0 10 2", "stress foo 2 1 2 10 2", "stress mem 2 1 2 10", "stress mem 99 1 2 10 2", "del", "del 5", "clear now", "new mem 1", "new foo 1 0 5", "new mem -1 0 5", "new mem 1 - 5", "SET k1 1 - 0 0", "set k1 1 -- 0 0", "set k1 1 + 0 0", "get k1 0 1e3"}
+		"race k1 0", "race k1", "fset k1", "fget", "fset k1 x", "fget 3", "cdel", "cset k1", "cget k1 0", "cclear now", "ctick 5", "crace k1 2", "stress mem 2 1 0 10 2", "stress foo 2 1 2 10 2", "stress mem 2 1 2 10", "stress mem 99 1 2 10 2", "del", "del 5", "clear now", "new mem 1", "new foo 1 0 5", "new mem -1 0 5", "new mem 1 - 5", "SET k1 1 - 0 0", "set k1 1 -- 0 0", "set k1 1 + 0 0", "get k1 0 1e3"}
 	lines := []string{r.Pick("new mem 2 0 1700000000000", "new both 2 3 1700000000000", "new", "new mem x 0 5", "new rds 1 1 1 1")}
 	for i := 0; i < r.Range(3, 10); i++ {
 		if r.Chance(1, 2) {
@@ -1750,6 +1828,14 @@ func genMalformed(r *rng.R) corr.Case {
 		}
 	}
 	return corr.Case{Tag: "malformed", Lines: lines}
+}
+
+func seqLines(format string, from, to int) []string {
+	var out []string
+	for i := from; i < to; i++ {
+		out = append(out, fmt.Sprintf(format, i))
+	}
+	return out
 }
 
 func clearManyFixed(n int, clock int64) []string {
@@ -1768,6 +1854,14 @@ func fixedCases() []corr.Case {
 	c := func(tag string, lines ...string) corr.Case { return corr.Case{Tag: tag, Lines: lines} }
 	return []corr.Case{
 		// Clear with more keys than one SCAN page (default COUNT 10), one key of another prefix before / after them
+		// red-team inputs: empty value overwrites; long keys with a common prefix; empty key consumed once; Remove with a
+		// cancelled context; size 256 with 257 keys
+		c("boundary-empty-value", "new both 2 60 1700000000000", "set k1 5 - 0 0", "set k1 900 - 0 0", "get k1 0 -", "set k2 902 - 0 0", "get k2 0 -"),
+		c("boundary-long-keys", "new both 4 60 1700000000000", "set k7000 5 - 0 0", "get k7001 0 -", "set k7001 6 - 1 0", "get k7000 0 -", "get k7001 0 -"),
+		c("boundary-empty-key", "new both 2 60 1700000000000", "set k8000 5 - 0 0", "get k8000 1 -", "get k8000 1 -", "set k8000 6 2 0 0", "del k8000", "get k8000 0 -", "set k8000 7 1 0 0", "tick 2000", "get k8000 0 -"),
+		c("boundary-glob-keys", "new both 8 60 1700000000001", "set k8001 1 - 0 0", "set k8002 2 - 0 0", "set k8003 3 - 0 0", "set k8005 4 - 0 0", "set k8007 5 - 0 0", "fset k8001 9", "get k8007 0 -", "clear", "get k8001 0 -", "get k8002 0 -", "get k8003 0 -", "get k8005 0 -", "get k8007 0 -", "fget k8001"),
+		c("boundary-cancelled-remove", "new both 2 60 1700000000000", "set k1 5 - 0 0", "cdel k1", "get k1 0 -", "cget k1 0 -", "cset k1 6 - 0 0", "get k1 0 -", "cclear", "get k1 0 -"),
+		c("boundary-size-256", append(append([]string{"new mem 256 0 1700000000000"}, seqLines("set k%d 1 - 0 0", 0, 257)...), "get k2 0 -", "get k1 0 -", "get k0 0 -")...),
 		c("stress-mem-fixed", "new mem 2 0 1700000000000", "stress mem 2 7 8 1000 3", "stress mem 0 8 8 300 2"),
 		c("stress-rds-fixed", "new mem 2 0 1700000000000", "stress rds 2 9 6 100 2"),
 		c("boundary-clear-40-keys", clearManyFixed(40, 1700000000001)...),
@@ -1831,6 +1925,9 @@ func spec() corr.Spec {
 			}
 			if r.Chance(1, 5) {
 				return genStress(r)
+			}
+			if r.Chance(1, 8) {
+				return genBoundLarge(r)
 			}
 			return genMalformed(r)
 		},
